@@ -44,6 +44,32 @@ def _has_lca(st):
     return bool(hit)
 
 
+def _reads_alias_of_earlier_branch(st):
+    """a later branch of a set operation reads a column named like a select alias of an earlier branch (the alias_colname choice point)"""
+    hit = []
+
+    def q(qq):
+        seen = set()
+        for b in qq["branches"]:
+            def cols(e):
+                if e[0] == "col":
+                    if e[2] in seen:
+                        hit.append(1)
+                elif e[0] in ("func", "coalesce"):
+                    for a in e[1]:
+                        cols(a)
+                elif e[0] in ("arith", "case", "window", "cast", "pgcast"):
+                    for a in e[1:]:
+                        if isinstance(a, list):
+                            cols(a)
+            for it in b["items"]:
+                cols(it["e"])
+            seen |= {it["alias"] for it in b["items"] if it["alias"]}
+
+    sqlgen.walk_queries(st, q)
+    return bool(hit)
+
+
 def _eval_lca(st):
     """lateral column alias reference on, with a provider that knows every base table (the setting needs one)"""
     from sqllineage.config import SQLLineageConfig
@@ -269,7 +295,8 @@ def run(tier: str, opts: dict) -> int:
             rep.violation(r["bad"], {"dialect": d, "sql": r["sql"], "ast": st}, {k: r[k] for k in ("obs", "expected", "delta") if k in r})
     # lateral column alias references (configuration LATERAL_COLUMN_ALIAS_REFERENCE on, provider in use)
     lca_cases = [st for sql, (st, trace, ndev) in enumerate_cases(sqlgen.COLUMN_LCA, 2 if tier == "quick" else 3, depth)[0]
-                 if _has_lca(st) and st["kind"] in ("insert", "ctas", "view") and "item:pgcast" not in sqlgen.features(st)]
+                 if _has_lca(st) and st["kind"] in ("insert", "ctas", "view") and "item:pgcast" not in sqlgen.features(st)
+                 and not (ndev >= 3 and _reads_alias_of_earlier_branch(st))]  # that choice point is explored up to two deviations in both tiers
     for st, r in zip(lca_cases, pmap(_eval_lca, lca_cases, chunk=16)):
         if r.get("ok"):
             continue
